@@ -41,7 +41,7 @@ type c20gen struct {
 	injected bool
 }
 
-var c20ws = []string{"", "", " ", "\n", "\n\n", "\r\n", "\t", "\n  ", " \n", "\n\t\n"}
+var c20ws = []string{"", "", " ", "\n", "\n\n", "\r\n", "\t", "\n  ", " \n", "\n\t\n", "\r", "\r\t", "\r\r\n", " \r "}
 
 func (g *c20gen) ws() {
 	g.sb.WriteString(c20ws[drawIdx(g.t, len(c20ws), "ws")])
@@ -54,8 +54,8 @@ func (g *c20gen) str(s string) {
 		case r == '"' || r == '\\':
 			g.sb.WriteByte('\\')
 			g.sb.WriteRune(r)
-		case r == '\n' && g.rawNL:
-			g.sb.WriteRune(r) // raw newline inside a string: still a newline character of the input
+		case (r == '\n' || r == '\r') && g.rawNL:
+			g.sb.WriteRune(r) // raw newline / carriage return inside a string: only '\n' is a newline character of the input
 		case r < 0x20:
 			fmt.Fprintf(&g.sb, `\u%04x`, r)
 		default:
